@@ -73,7 +73,7 @@ def cmd_run(ids, tier, props=None):
         try:
             for prop in (props or [meta['property']]):
                 t0 = time.time()
-                rc, out = sh(f'./check {prop} --tier {tier}', cwd=ROOT, timeout=7200)
+                rc, out = sh(f'mkdir -p {ROOT}/.scratch/evidence_seeded && VERIF_EVIDENCE_DIR={ROOT}/.scratch/evidence_seeded ./check {prop} --tier {tier}', cwd=ROOT, timeout=7200)
                 viol = [l for l in out.splitlines() if l.startswith('VIOLATION')]
                 detail = [l for l in out.splitlines() if l.startswith('  ')][:2]
                 results[prop] = {'rc': rc, 'violations': len(viol), 'first': (detail[0][:300] if detail else ''),
@@ -81,7 +81,6 @@ def cmd_run(ids, tier, props=None):
                 print(f"{sid}: check {prop} {tier} -> rc={rc} violations={len(viol)} {detail[0][:160] if detail else out[-200:]}")
         finally:
             sh('git checkout -- .', cwd='/repo')
-            sh(f'git -C {ROOT} checkout -- evidence', cwd=ROOT)
         meta.setdefault('detection', {}).update(results)
         json.dump(meta, open(os.path.join(d, 'meta.json'), 'w'), indent=1)
 
